@@ -4,7 +4,7 @@ use tyme4rs::tyme::Tyme;
 use tyme4rs::tyme::lunar::{LunarMonth, LunarYear};
 use crate::util::*;
 
-const OPS: &[&str] = &["lunar.month", "lunar.month.new", "lunar.month.next", "lunar.year", "solar.lunar", "lunar.solar", "lunar.new"];
+const OPS: &[&str] = &["lunar.month", "lunar.month.new", "lunar.month.next", "lunar.year", "solar.lunar", "lunar.solar", "lunar.new", "lunar.before", "lunar.after", "lunar.next"];
 
 pub fn exec(op: &str, a: &[i64]) -> Option<Option<String>> {
   if OPS.contains(&op) { Some(go(op, a)) } else { None }
@@ -37,9 +37,132 @@ fn go(op: &str, a: &[i64]) -> Option<String> {
       let l = tyme4rs::tyme::lunar::LunarDay::new(a[0] as isize, a[1] as isize, us(a[2])?).ok()?;
       Some(fmt_day(&l.get_solar_day()))
     }
+    ("lunar.before", 6) | ("lunar.after", 6) => {
+      let x = tyme4rs::tyme::lunar::LunarDay::new(a[0] as isize, a[1] as isize, us(a[2])?).ok()?;
+      let y = tyme4rs::tyme::lunar::LunarDay::new(a[3] as isize, a[4] as isize, us(a[5])?).ok()?;
+      Some(format!("{}", (if op == "lunar.before" { x.is_before(y) } else { x.is_after(y) }) as u8))
+    }
+    // LunarDay::next
+    ("lunar.next", 4) => {
+      let x = tyme4rs::tyme::lunar::LunarDay::new(a[0] as isize, a[1] as isize, us(a[2])?).ok()?;
+      let r = x.next(a[3] as isize);
+      Some(format!("{} {} {}", r.get_year(), r.get_month(), r.get_day()))
+    }
     ("lunar.new", 3) => { tyme4rs::tyme::lunar::LunarDay::new(a[0] as isize, a[1] as isize, us(a[2])?).ok()?; Some("ok".into()) }
     _ => Some("bad-op".to_string()),
   }
 }
 
-pub fn run_enum(_name: &str, _args: &[String], _w: &mut dyn Write) -> bool { false }
+
+/// years visited by the sampled tiers: quick = 0..=300, every 10th year, and the last 3; thorough = all
+pub fn year_selected(y: i64, args: &[String]) -> bool {
+  let all = args.get(0).map(|s| s == "all").unwrap_or(false);
+  all || y <= 300 || y % 10 == 0 || y >= 9997 || (1575..=1590).contains(&y)
+}
+
+pub fn run_enum(name: &str, args: &[String], w: &mut dyn Write) -> bool {
+  match name {
+    // acceptance: per year -2..=10000 the bitmask over month -13..=13 (bit m+13) of from_ym acceptance
+    "c03.grid" => {
+      for y in -2i64..=10000 {
+        let mut mask: u64 = 0;
+        for m in -13i64..=13 {
+          let ok = guard(|| { LunarMonth::new(y as isize, m as isize).ok()?; Some("ok".into()) }) == "ok";
+          if ok { mask |= 1u64 << (m + 13); }
+        }
+        writeln!(w, "{} {}", y, mask).unwrap();
+      }
+    }
+    // every listed month through the memoised constructor + year data
+    "c03.months" => {
+      for y in 0i64..=9999 {
+        let ly = LunarYear::from_year(y as isize);
+        let line = guard(|| Some(format!("{} year {} {} {}", y, ly.get_leap_month(), ly.get_month_count(), ly.get_day_count())));
+        writeln!(w, "{}", if line == REFUSED { format!("{} year refused", y) } else { line }).unwrap();
+        for m in crate::peph::months_of_year(y) {
+          let c = LunarMonth::from_ym(y as isize, m.get_month_with_leap());
+          writeln!(w, "{}", fmt_month(&c)).unwrap();
+        }
+      }
+    }
+    // the property itself evaluated on the implementation: per listed month `y m abut len_ok`, per year
+    // `y year count_ok yearlen_ok dist_ok` (1 = holds). Months are stepped with next(1) through the API.
+    "c03.tiles" => {
+      for y in 0i64..=9998 {
+        let ly = LunarYear::from_year(y as isize);
+        let ms = ly.get_months();
+        let leap = ly.get_leap_month();
+        let mut sum: i64 = 0;
+        for (i, m) in ms.iter().enumerate() {
+          let nx = m.next(1);
+          let abut = first_jdn(&nx) == first_jdn(m) + m.get_day_count() as i64;
+          let lok = m.get_day_count() == 29 || m.get_day_count() == 30;
+          // numbering: 1.., leap right after its twin
+          let exp_m: i64 = if leap == 0 || i < leap { i as i64 + 1 } else if i == leap { -(leap as i64) } else { i as i64 };
+          let nok = m.get_month_with_leap() as i64 == exp_m && m.get_index_in_year() == i;
+          sum += m.get_day_count() as i64;
+          writeln!(w, "{} {} {} {} {}", y, m.get_month_with_leap(), abut as u8, lok as u8, nok as u8).unwrap();
+        }
+        let cnt_ok = ms.len() == ly.get_month_count() && ms.len() == (if leap > 0 { 13 } else { 12 }) && leap <= 12;
+        let dc = ly.get_day_count() as i64;
+        let ylen_ok = (353..=355).contains(&dc) || (383..=385).contains(&dc);
+        let dist = first_jdn(&LunarMonth::from_ym(y as isize + 1, 1)) - first_jdn(&LunarMonth::from_ym(y as isize, 1));
+        writeln!(w, "{} year {} {} {}", y, cnt_ok as u8, ylen_ok as u8, (dist == dc && sum == dc) as u8).unwrap();
+      }
+    }
+    // stepping: from every listed month of the selected years, n in a fixed list
+    "c03.next" => {
+      let ns: [i64; 15] = [0, 1, -1, 2, -2, 12, -12, 13, -13, 25, -25, 37, -37, 130, -130];
+      for y in 0i64..=9999 {
+        if !year_selected(y, args) { continue; }
+        for m in crate::peph::months_of_year(y) {
+          let mm = m.get_month_with_leap() as i64;
+          for n in ns.iter() {
+            let r = guard(|| { let x = LunarMonth::from_ym(y as isize, mm as isize).next(*n as isize); Some(format!("{} {}", x.get_year(), x.get_month_with_leap())) });
+            writeln!(w, "{} {} {} {}", y, mm, n, r).unwrap();
+          }
+        }
+      }
+    }
+    // civil day -> lunar day -> civil day
+    "c02.days" => {
+      for y in 1i64..=9999 {
+        if !year_selected(y, args) { continue; }
+        for m in 1i64..=12 {
+          for d in 1i64..=31 {
+            let sd = match solar_day(y, m, d) { Some(x) => x, None => continue };
+            let r = guard(|| {
+              let l = sd.get_lunar_day();
+              let back = guard(|| Some(fmt_day(&l.get_solar_day())));
+              Some(format!("{} {} {} {}", l.get_year(), l.get_month(), l.get_day(), back))
+            });
+            writeln!(w, "{} {} {} {}", y, m, d, r).unwrap();
+          }
+        }
+      }
+    }
+    // accepted lunar day -> civil day -> lunar day
+    "c02.lunar" => {
+      for y in 0i64..=9999 {
+        if !year_selected(y, args) { continue; }
+        for m in crate::peph::months_of_year(y) {
+          let mm = m.get_month_with_leap() as i64;
+          for d in 0i64..=31 {
+            let r = guard(|| {
+              let l = tyme4rs::tyme::lunar::LunarDay::new(y as isize, mm as isize, us(d)?).ok()?;
+              let s = guard(|| {
+                let sd = l.get_solar_day();
+                let back = guard(|| { let b = sd.get_lunar_day(); Some(format!("{} {} {}", b.get_year(), b.get_month(), b.get_day())) });
+                Some(format!("{} {}", fmt_day(&sd), back))
+              });
+              Some(s)
+            });
+            if d == 0 || d >= 29 || r != REFUSED { writeln!(w, "{} {} {} {}", y, mm, d, r).unwrap(); }
+          }
+        }
+      }
+    }
+    _ => { return false; }
+  }
+  true
+}
